@@ -93,6 +93,13 @@ def oracle(ck, extended):
         J = rng.randint(1, 3)
         x = gen.int_tensor(rng, (1, rng.randint(1, 2), rng.randint(2, 22), rng.randint(2, 22)), amp=3)
         rt.guard(ck, oracle_fwd, ck, bt, qt, bt, qt, J, x, 'integer filters')
+    # sizes above every blocking / tiling threshold (gen.scale_shapes_2d): EVERY level-1 family (their low-pass and high-pass
+    # lengths differ in both directions) with every q-shift family in turn
+    for k, shp in enumerate(gen.scale_shapes_2d(ck.tier)):
+        for i, b in enumerate(OD.BIORTS):
+            if not q or (k + i) % 2 == 0 or shp[2] > 500 or shp[3] > 500:
+                s = OD.QSHIFTS[(k + i) % len(OD.QSHIFTS)]; bt, qt = OD.lib_tables(b, s)
+                rt.guard(ck, oracle_fwd, ck, b, s, bt, qt, 1 + (k + i) % 3, gen.float_tensor(ck.nprng, shp), '%s/%s' % (b, s))
 
 
 def spec_check(ck):
